@@ -8,7 +8,6 @@ JSON glue for the CLI model (property C15).  A JSON *value* `J` travels in an or
 (harness/impl_cli.py to_wire/from_wire):  null | integer | string | [..] | {"o": [[key, value], ..]} | {"f": 0} (non-integer number).
 Routine sets use the format of Driver/Ssbs.lean (harness/rsjson.py).
   cli.build      {settings: J, set}  → {json: J} | {err}
-  cli.buildfixed {settings: J, set}  → {json: J} | {err}      (proposed repair: jump parameters written as positions)
   cli.read       {json: J}           → {set, named: [[id, name]]} | {err}
   cli.docshape   {json: J}           → {ok, str}               (documented structure; … with string position coordinates)
   cli.info       {set}               → {closed, positional, canon: set, renum: set, headers_ok}
@@ -49,10 +48,6 @@ def handle (op : String) (j : Json) : R Json := do
   match op with
   | "cli.build" =>
     match buildJson (← jOf (← fld j "settings")) (← SsbsD.setOf (← fld j "set")) with
-    | .ok d => pure (Json.mkObj [("json", jTo d)])
-    | .error e => pure (errTo e)
-  | "cli.buildfixed" =>
-    match buildJsonFixed (← jOf (← fld j "settings")) (← SsbsD.setOf (← fld j "set")) with
     | .ok d => pure (Json.mkObj [("json", jTo d)])
     | .error e => pure (errTo e)
   | "cli.read" =>
